@@ -1045,6 +1045,8 @@ func init() {
 			// are inputs that must change nothing, too
 			g.ft.Wild = []float64{0, 0.15, 0.4}[g.r.Intn(3)]
 			g.ft.As = g.r.P(0.6)
+			// registrations issued by an invoked function that then fails
+			g.ft.PThenProvide = []float64{0, 0.06, 0.15}[g.r.Intn(3)]
 		}, Mix{Scope: 2, Provide: 8, Decorate: 3, Invoke: 8, VisStr: 4}),
 		Eval:      evalC14,
 		QuickRuns: 50_000,
